@@ -52,6 +52,10 @@ def gen(rng):
         ops.append({'k': 'add', 'res': docs.resource([g.extension('bx', W['b:1'], '1', v, with_forms=True)], v)})
     for s in sels:
         ops.append(dict({'k': 'battery'}, **s))
+    # some histories continue in a new session on the same database file
+    for op in ops:
+        if op['k'] in ('remove', 'add') and op is not ops[0] and rng.random() < 0.35:
+            op['_reconnect'] = True
     return {'ops': ops, 'change': change, 'nsel': len(sels)}
 
 
@@ -94,6 +98,11 @@ def refs_in(b):
                 out.append((y[0], f'synset() of sense {t[1]} reached by a relation of sense {x["ref"][1]}'))
             for m in ms:
                 out.append((m[0], f'member of the synset of sense {t[1]} reached by a relation of sense {x["ref"][1]}'))
+    for p_, v_ in sc.get('_tax', {}).items():
+        if isinstance(v_, list):
+            for what, lst in (('root', v_[0]), ('leaf', v_[1])):
+                for r in lst:
+                    out.append((r[0], f'{what} {r[1]} of the taxonomy of part of speech {p_!r}'))
     for f, ws, ss, ys in sc.get('_by_form', []):
         for kind, lst in (('word', ws), ('sense', ss), ('synset', ys)):
             for r in lst:
@@ -196,8 +205,8 @@ def judge(ctx, sc, im):
             for x in c['scope'].get('synsets_x', []):
                 for t in changed:
                     x['translate'].pop(t, None)
-        n1 = [[x['ref'], x.get('_nav'), x.get('_rnav')] for x in c1['scope'].get('senses_x', [])]
-        n2 = [[x['ref'], x.get('_nav'), x.get('_rnav')] for x in c2['scope'].get('senses_x', [])]
+        n1 = [[x['ref'], x.get('_nav'), x.get('_rnav')] for x in c1['scope'].get('senses_x', [])] + [['taxonomy', c1['scope'].get('_tax')]]
+        n2 = [[x['ref'], x.get('_nav'), x.get('_rnav')] for x in c2['scope'].get('senses_x', [])] + [['taxonomy', c2['scope'].get('_tax')]]
         dn = c01.diff(n1, n2)
         if dn:
             ctx.fail('frame:results-unchanged-by-lexicons-outside-selection-and-expand-set', sc,
